@@ -592,6 +592,14 @@ def _split_code_lines(ast_nodes, text):
         else:
             endpos = next_startpos
             assert endpos <= text.endpos
+            # The last line of the node itself is code even when it looks
+            # like a comment (e.g. the closing line of a multi-line string).
+            end_lineno = getattr(node, 'end_lineno', None)
+            if end_lineno is None:
+                last_lineno = startpos.lineno
+            else:
+                last_lineno = max(startpos.lineno,
+                                  text.startpos.lineno + end_lineno - 1)
             # We don't have an endpos yet; what we do have is the next node's
             # startpos (or the position at the end of the text).  Start there
             # and work backward.
@@ -600,7 +608,8 @@ def _split_code_lines(ast_nodes, text):
                     # There could be a comment on the last line and no
                     # trailing newline.
                     # TODO: do this in a more principled way.
-                    if _is_comment_or_blank(text[endpos.lineno]):
+                    if (endpos.lineno > last_lineno and
+                        _is_comment_or_blank(text[endpos.lineno])):
                         assert startpos.lineno < endpos.lineno
                         if not text[endpos.lineno-1].endswith("\\"):
                             endpos = FilePos(endpos.lineno,1)
@@ -614,7 +623,7 @@ def _split_code_lines(ast_nodes, text):
                     # _is_comment_or_blank(...)'.]
                     pass
             if endpos.colno == 1:
-                while (endpos.lineno-1 > startpos.lineno and
+                while (endpos.lineno-1 > last_lineno and
                        _is_comment_or_blank(text[endpos.lineno-1]) and
                        (not text[endpos.lineno-2].endswith("\\") or
                         _is_comment_or_blank(text[endpos.lineno-2]))):
